@@ -75,6 +75,39 @@ DESC = {
     "C20-r2m1": "_merge skips falsy user values (0, false, \"\", [])",
     "C20-r2m2": "config path via Path.with_suffix (app names containing a dot)",
     "C20-r2m3": "user file text cached per (int(mtime), size)",
+    "C01-r3m1": "sqlite insert error path: rollback on sqlite3.Error (discards earlier buffered inserts)",
+    "C01-r3m2": "Bucket facade: _last_inserted cache serves get_by_id from the caller's object",
+    "C01-r3m3": "Bucket.get: end edge truncated to ms instead of rounded up (peewee clips an inside event's microseconds)",
+    "C02-r3m1": "Bucket facade: cached event count updated by +len(list) even for upserts",
+    "C02-r3m2": "memory get_events: sorted(reverse=True) (ties come back oldest-first, replace_last still newest)",
+    "C02-r3m3": "memory id->position index not shifted correctly after delete",
+    "C03-r3m1": "sqlite bucket-id->rowid cache for reads never invalidated (re-created bucket reads empty)",
+    "C03-r3m2": "Bucket.get: seconds carry lost when rounding the end edge up (end in the last ms of a second)",
+    "C03-r3m3": "memory get_eventcount ignores durations again",
+    "C04-r3m1": "sqlite rowid cache as class attribute, keyed by bucket id (two store objects)",
+    "C04-r3m2": "sqlite update_bucket WHERE id = ? COLLATE NOCASE",
+    "C04-r3m3": "memory metadata: shared template dict + in-place data update (two cooperating edits)",
+    "C05-r3m1": "Datastore.__getitem__ registers the handle before the existence check raises",
+    "C05-r3m2": "sqlite update_bucket commits lazily (conditional_commit)",
+    "C05-r3m3": "peewee update_bucket: single UPDATE, missing bucket silently ignored",
+    "C06-r3m1": "sqlite conditional_commit tests the threshold before counting the statements just issued",
+    "C06-r3m2": "peewee insert_many in a manual BEGIN..COMMIT without rollback (a failed bulk leaves the transaction open)",
+    "C06-r3m3": "sqlite statement counter per bucket, transaction shared",
+    "C07-r3m1": "Datastore facade newest-event cache not dropped on delete_bucket",
+    "C07-r3m2": "sqlite _write helper rolls back on error + reads no longer commit (two cooperating edits)",
+    "C07-r3m3": "heartbeat_reduce fast path: no merge when gap >= pulsetime (should be >)",
+    "C12-r3m1": "memory get_events clips stored events to the window end in place",
+    "C12-r3m2": "Event(data=None) shares one module-level empty dict (annotating queries write into it)",
+    "C12-r3m3": "query(): STARTTIME/ENDTIME with timespec='milliseconds'",
+    "C14-r3m1": "sqlite bulk-insert rowid memo as class attribute (two profiles migrated in one process)",
+    "C14-r3m2": "peewee handle opened with journal_mode=wal (legacy file rewritten on open)",
+    "C14-r3m3": "sqlite json.dumps(ensure_ascii=False): unpaired surrogate in legacy data aborts the migration",
+    "C18-r3m1": "commit(): last_commit reset in a finally even when the commit raised",
+    "C18-r3m2": "last_commit = now on every write (idle timeout instead of age limit)",
+    "C18-r3m3": "Bucket.replace_last skips the storage call for a repeated identical event",
+    "C20-r3m1": "_merge recurses only into tomlkit Table (inline / out-of-order tables replaced wholesale)",
+    "C20-r3m2": "lru_cache on get_config_dir (config home resolved once per process)",
+    "C20-r3m3": "lines starting with # dropped from the user's file before parsing (multi-line strings)",
 }
 
 
@@ -95,7 +128,7 @@ def main():
         m["breaks_property"] = own
         m["change"] = DESC.get(name, "")
         m["needs_to_manifest"] = " ".join(needs)[:900] if needs else notes[:600]
-        m["author"] = "independent sub-agent, round %d; saw only the property text and a private worktree" % (2 if "-r2" in name else 1)
+        m["author"] = "independent sub-agent, round %d; saw only the property text and a private worktree" % (3 if "-r3" in name else 2 if "-r2" in name else 1)
         json.dump(m, open(mp, "w"), indent=1)
         det = []
         first = ""
@@ -110,8 +143,8 @@ def main():
         rows.append((name, own, DESC.get(name, ""), "yes (%s)" % first if own in det else "**no**", ", ".join(c for c in det if c != own) or "—", ", ".join(harness) or ""))
     out = ["## Appendix F — seeded changes and the checks that catch them", "",
            "Generated by `tools/appendix_f.py` from `seeded/*/meta.json` (each change applied to a scratch worktree,",
-           "`VERIF_REPO=<worktree> check.py <ID> --tier quick`). `-m*` = first round, `-r2m*` = second round (agents were told",
-           "to avoid the first round's ideas). \"own check\" = the check of the property the change was written against.", "",
+           "`VERIF_REPO=<worktree> check.py <ID> --tier quick`). `-m*` = first round, `-r2m*` / `-r3m*` = second / third round (agents were",
+           "told which ideas had been used and asked for other mechanisms). \"own check\" = the check of the property the change was written against.", "",
            "| id | change | own check (first oracle) | also caught by |", "|----|--------|--------------------------|----------------|"]
     for name, own, desc, owns, others, harness in rows:
         out.append("| %s | %s | %s | %s%s |" % (name, desc, owns, others, (" (exit 2: %s)" % harness) if harness else ""))
